@@ -42,6 +42,11 @@ CLAIMS = {
         technique='differential symbolic execution (CrossHair/z3): compiled start-tag code vs attribute map derived from the property statement; dynamic values and dictionary key presence symbolic',
         text='Per enumerated (static attributes x tal:attributes list x boolean configuration) the solver decides the rendered attribute list for every combination of dynamic value classes and dictionary contents.',
         note=G_NOTE),
+    'C06': dict(
+        engine='X+G', level='model_checking', design_ref='DESIGN.md 4 C06',
+        technique='symbolic execution (CrossHair/z3) of the real Interpolator on symbolic text with a symbolic validator mask vs a scanner oracle; entity-decoding kernel; differential symbolic execution of interpolation contexts/switch templates',
+        text='Interpolator segmentation decided for all code points of each text shape and all accept/reject patterns of the expression validator; contexts and on/off switches per enumerated template.',
+        note='Trusted: CrossHair regex/string models + chsym plugin; validator stand-in (accept iff bit len(candidate) of a symbolic mask) replaces the Python parser; reference interpreter for contexts.'),
     'C03': dict(
         engine='X+Z', level='model_checking', design_ref='DESIGN.md 4 C03',
         technique='symbolic execution (CrossHair/z3) of iter_xml/match_tag/emitters on shape-enumerated character-symbolic strings; z3 regex inclusion from the live lexer pattern',
